@@ -224,6 +224,14 @@ func init() {
 					}
 				}
 			}
+			// channel counts beyond 3 (5, 6, 7, 10, 12: even and odd, none a power of two), small windows that grow
+			for _, t := range []int{dyn.Int8, dyn.Float64} {
+				for _, C := range []int{5, 6, 7, 10, 12} {
+					for _, w := range [][3]int{{2, 0, 1}, {5, 1, 2}, {8, 0, 8}, {3, 3, 0}} {
+						bigs = append(bigs, bshape{t, C, w[0], w[1], w[2]})
+					}
+				}
+			}
 			c.ParallelFor(len(bigs), func(i int) {
 				sh := bigs[i]
 				menu := func(nviews int) [][]wop {
